@@ -672,6 +672,26 @@ class OriginSuite(PairedSuite):
             c = rng.choice([1, 1000, 10 ** 6, 1800000000])
             b_sc = shift_scenario(a, Fraction(c))
             yield {"a": a, "b": b_sc, "pick": "b" if (i % 2 and c <= 1000) else "a", "oracle": dict(orc, c=c)}
+        for i in range(16 if tier == "quick" else 160):
+            # server mode, Wheatley alone, the tower slowed down (or sped up) late in the touch: at an origin near 0
+            # the intercept of the new line lies BEFORE the clock's zero - a perfectly good line
+            n = rng.choice([4, 6, 8])
+            iv0 = blow_interval(180, n)
+            look_to = Fraction(rng.randint(5, 60), 100) + Fraction(rng.randint(1, 999), 10 ** 6)
+            evs = [ev(0, "global", [True] * n), ev(Fraction(11, 1000), "user_entered", 1, "Wheatley")]
+            for b in range(1, n + 1):
+                evs.append(ev(Fraction(12, 1000) + Fraction(b, 100000), "assign", b, 1))
+            evs.append(ev(Fraction(4, 100), "row_gen", {"type": "method", "stage": n, "notation": "x1"}))
+            evs.append(ev(look_to, "call", "Look to"))
+            tc = look_to + 3 + iv0 * Fraction(rng.randint(2500, 7000), 100) + Fraction(rng.randint(1, 999), 10 ** 6)
+            val = rng.choice([240, 240, 300, 210, 150])
+            evs.append(ev(tc, "setting", [["peal_speed", val]]))
+            horizon = tc + blow_interval(val, n) * (3 * n) + Fraction(1, 3000)
+            rh = {"kind": "wait", "inertia": 1.0, "peal_speed": 180, "gap": 1.0, "max": 15}
+            a = base({"kind": "placeholder"}, n, rh, evs, horizon)
+            a.update({"name": "Wheatley", "instance": 5, "stop_at_rounds": False})
+            c = rng.choice([1000, 10 ** 6, 1800000000])
+            yield {"a": a, "b": shift_scenario(a, Fraction(c)), "pick": "a", "oracle": {"c": c, "n": n, "speed": [fstr(tc), val]}}
 
     def cases(self, rng, tier):
         yield from self.scenarios(rng, tier)
